@@ -1017,3 +1017,20 @@ package rapid
 //@   after-store integerKindToInfo assert [C03,C18] !integerKindToInfo["Uint"].signed && integerKindToInfo["Uint"].umax == math.MaxUint64
 //@   after-store integerKindToInfo assert [C03,C18] !integerKindToInfo["Uintptr"].signed && integerKindToInfo["Uintptr"].umax == math.MaxUint64
 //@   modifies heap, published
+
+// ---------------------------------------------------------------------------------------------
+// make.go (reflection): only the replay discipline of the map generator is under contract - an attempt that is
+// rejected (its bits are discarded from the recording) must leave no trace in the value being built, otherwise
+// a replay of the pruned recording yields another map.
+//@ ghost rejectedAttempt Bool
+
+//@ func genAnyMap$1
+//@   noframe "builds a map through reflection"
+//@   nosafety "reflection calls are abstracted"
+//@   ensures [C04] true
+//@   panics any: true
+//@   modifies heap, drawn, lastWord, rejectedAttempt, stream(t.s)
+//@   at repeat.more#0 set rejectedAttempt = false
+//@   at repeat.reject#0 set rejectedAttempt = true
+//@   at m.SetMapIndex#0 assert [C04] !rejectedAttempt
+//@   loop 0 invariant [C04] repeatInv(repeat) && groupUsed(repeat)
